@@ -249,6 +249,59 @@ def r5_from_slice(rep, facts):
     rep.check(R, d, chk is not None and parse is not None and chk <= parse, 'from_utf8(..)? then from_str', 'from_slice does not validate UTF-8 (checked) before handing the text to the parser', facts.loc(b))
 
 
+def r6_map_protocol(rep, facts):
+    R = rep.rule('C04/R6', 'the workspace\'s own serde visitors keep to the MapAccess protocol: in every hand-written visit_map a value is requested only where '
+                 'the preceding next_key is known to have returned Some (toml_edit\'s map access panics on a value request without a pending key)', floor=7)
+    from .shared import path_to
+    KEYS = ('next_key', 'next_key_seed')
+    VALS = ('next_value', 'next_value_seed')
+    some = lambda p: any((x.get('path') or '').endswith('Option::Some') for x in walk(p) if x.get('k') in ('p_tuplestruct', 'p_struct'))
+    none = lambda p: any(((x.get('path') or (x.get('e') or {}).get('path') or '')).endswith('Option::None') for x in walk(p))
+    has_key = lambda e: any(x.get('k') == 'mcall' and x.get('name') in KEYS for x in walk(e))
+    for d, b in sorted(facts.bodies.items()):
+        if not d.endswith('::visit_map') or b.get('derived') or b.get('x'):
+            continue
+        nodes = list(walk(b['body']))
+        pos = {id(n): i for i, n in enumerate(nodes)}
+        vals = [n for n in nodes if n.get('k') == 'mcall' and n.get('name') in VALS]
+        if not vals:
+            continue
+        key_locals = set()
+        for n in nodes:
+            if n.get('k') == 'let' and (n.get('pat') or {}).get('k') == 'p_bind' and 'init' in n and has_key(n['init']):
+                key_locals.add(n['pat']['name'])
+        mentions_keylocal = lambda e: any(x.get('k') == 'path' and x.get('path') in key_locals for x in walk(e))
+        # earlier statements that leave the function when the key was None
+        guards = []
+        for n in nodes:
+            if n.get('k') == 'if' and mentions_keylocal(n['cond']) and any(x.get('k') == 'mcall' and x.get('name') == 'is_none' for x in walk(n['cond'])) \
+                    and any(x.get('k') == 'ret' for x in walk(n['then'])):
+                guards.append(pos[id(n)])
+            if n.get('k') == 'match' and 'TryDesugar' not in (n.get('src') or '') and (mentions_keylocal(n['scrut']) or has_key(n['scrut'])):
+                for arm in n['arms']:
+                    if none(arm['pat']) and not some(arm['pat']) and any(x.get('k') == 'ret' for x in walk(arm['body'])):
+                        end = max(pos[id(x)] for x in walk(n))
+                        guards.append(end)
+        for vi, v in enumerate(vals):
+            ok = False
+            pth = path_to(b['body'], v) or []
+            for node, key in pth:
+                if node.get('k') == 'if' and key == 'then' and peel(node['cond']).get('k') == 'letexpr':
+                    le = peel(node['cond'])
+                    if some(le['pat']) and (has_key(le['init']) or mentions_keylocal(le['init'])):
+                        ok = True
+                if 'pat' in node and key == 'body' and some(node['pat']):
+                    # a match arm `Some(..) => ..`: find the match it belongs to
+                    for mnode, mkey in pth:
+                        if mnode.get('k') == 'match' and any(a is node for a in mnode.get('arms', [])) and (has_key(mnode['scrut']) or mentions_keylocal(mnode['scrut'])):
+                            ok = True
+            if not ok and any(g < pos[id(v)] for g in guards):
+                ok = True
+            rep.check(R, f'{d.split(" as ")[0].lstrip("<")}|{v.get("name")}#{vi}', ok, 'requested only after a key',
+                      f'`{d}` calls {v.get("name")} (line {v.get("l")}) where next_key may have returned None: on an empty table toml_edit\'s TableMapAccess panics '
+                      f'("no more values in next_value_seed")', facts.loc(b, v))
+
+
 def rules(rep, facts):
     feats = set(facts.crates.get('toml_edit', {}).get('features', []))
     if 'toml_edit' not in facts.crates or not {'parse', 'display', 'serde'} <= feats or 'toml' not in facts.crates:
@@ -264,6 +317,7 @@ def rules(rep, facts):
     r3_unsafe(rep, facts, g)
     r4_progress(rep, facts, g)
     r5_from_slice(rep, facts)
+    r6_map_protocol(rep, facts)
     # R2: the structural guards the allowlist reasons rely on
     from .rules_c12 import r3b_digit
     from .rules_c15 import r4_rendering
